@@ -1134,6 +1134,10 @@ def c02_reference(tier, seed):
                         'negative-remap': lambda d: d.setdefault('remaps', {}).update({'C(C)(H)3': [[1, 'Methyl'], [-0.5, 'Penalty'], [0, 'Nothing']]}),
                         # chained rules (the target of one is the key of another) and a descriptor that carries the name of a group: one linear substitution, names add up
                         'chained-remap': lambda d: d.setdefault('remaps', {}).update({'C(H)3(O)': [[1, 'C(C)(H)3']], 'C(C)(H)3': [[1, 'methyl']]}),
+                        # a centre pattern that constrains a NON-centre atom which is interchangeable with another pattern atom: the centre matches when SOME
+                        # assignment of the other pattern atoms satisfies the constraints (whatever assignment the matcher happens to list first)
+                        'constraint-on-neighbour': lambda d: d['patterns'].append({'center_name': 'Si', 'periph_name': 'Si', 'connectivity':
+                                                                                    'fragment a{ Si labeled c1 C labeled c2 single bond to c1 {connected to =3 H} C labeled c3 single bond to c1 }'}),
                         'descriptor-named-as-group': lambda d: d.update({'smarts_based_descriptors': [{'name': 'C(C)(H)3', 'smarts': '[CX4][CX4]', 'useChirality': False}]}),
                         'smiles-smarts-entries': lambda d: d.update({'smiles_based_descriptors': [{'name': 'Cis', 'smarts': '[CX4][OX2H]', 'useChirality': False},
                                                                                                {'name': 'Alcohol', 'smarts': '[OX2H]', 'useChirality': False}],
@@ -1149,7 +1153,8 @@ def c02_reference(tier, seed):
                 except Exception as e:    # noqa
                     viol.append({'id': 'syn-%s-%s-load' % (base, vn), 'input': {'scheme': base, 'variant': vn}, 'observed': 'Load raised %s' % type(e).__name__, 'expected': 'scheme loads'})
                     continue
-                for smi in ['C', 'CC', 'CCO', 'C=C', 'CC(C)(C)C', 'OCCO', 'C=CO', 'c1ccccc1', 'COCC', 'CCOC', 'CCC'] if base == 'BensonGA' else ['CC', 'C([Pt])C', 'CCO', 'OC([Pt])C']:
+                for smi in (['C', 'CC', 'CCO', 'C=C', 'CC(C)(C)C', 'OCCO', 'C=CO', 'c1ccccc1', 'COCC', 'CCOC', 'CCC'] + (['C[SiH2]CC', 'CC[SiH2]C', 'C([SiH2]C)C', 'CC[SiH2]CC', 'C[SiH2]C'] if vn == 'constraint-on-neighbour' else [])
+                            if base == 'BensonGA' else ['CC', 'C([Pt])C', 'CCO', 'OC([Pt])C']):
                     n += 1
                     try:
                         want = ('ok', _norm(S.ref_descriptors(base, smi, scheme_path=path)))
@@ -1304,6 +1309,69 @@ def c04_mixtures(tier, seed):
                              'script': "import pgradd.ThermoChem\nfrom pgradd.GroupAdd.Library import GroupLibrary\nlib = GroupLibrary.Load(%r)\nfor s in (%r, %r, %r): print(dict(lib.GetDescriptors(s)))\n" % (name, a, b, a + '.' + b)})
         if len(samples) < 3 and pairs:
             samples.append({'library': name, 'pair': list(pairs[0])})
+        # the documented sequence GetDescriptors -> Estimate -> property, for A, B and 'A.B', TWICE on the same library object (a table with a second
+        # temperature row): every property of the pair, the ones taken relative to the elements included, is the sum of the components' -- in every pass
+        good = [(a, b) for a, b in pairs if single.get(a, ('fail',))[0] == 'ok' and single.get(b, ('fail',))[0] == 'ok' and a != b and single[a][1] and single[b][1]][:3]
+        for a, b in good:
+            for pas, T in ((1, 298.15), (2, 400.0), (3, 500.0)):
+                vals = {}
+                for x in (a, b, a + '.' + b):
+                    try:
+                        with real.quiet():
+                            est = lib.Estimate(lib.GetDescriptors(x), 'thermochem')
+                            vals[x] = [real.outcome(est.get_HoRT, T), real.outcome(est.get_SoR, T), real.outcome(lambda t: est.get_SoR(t, S_elements=True), T),
+                                       real.outcome(lambda t: est.get_GoRT(t, S_elements=True), T)]
+                    except Exception as e_:    # noqa  (missing data for a group: outside this property)
+                        vals[x] = None
+                n += 1
+                if any(v is None for v in vals.values()):
+                    continue
+                for i_, what in enumerate(('H/RT', 'S/R', 'S/R relative to the elements', 'G/RT relative to the elements')):
+                    x, y, z = vals[a][i_], vals[b][i_], vals[a + '.' + b][i_]
+                    if x[0] == y[0] == z[0] == 'ok' and not real.close(x[1] + y[1], z[1], 1e-9, 1e-9) and _room(viol, 15):
+                        viol.append({'id': '%s-%s.%s-pass%d-%s' % (name, a, b, pas, what.split()[0]), 'cls': 'pair-property-not-the-sum', 'input': {'library': name, 'A': a, 'B': b, 'T': T, 'pass': pas, 'property': what},
+                                     'observed': z[1], 'expected': x[1] + y[1],
+                                     'script': "import pgradd.ThermoChem\nfrom pgradd.GroupAdd.Library import GroupLibrary\nlib = GroupLibrary.Load(%r)\nfor T in (298.15, 400.0, 500.0):\n    print([lib.Estimate(lib.GetDescriptors(s), 'thermochem').get_SoR(T, S_elements=True) for s in (%r, %r, %r)])\n" % (name, a, b, a + '.' + b)})
+    # a user scheme with an AMBIGUOUS centre (two patterns match one atom) next to patterns listed after it: whether a species is rejected must not depend
+    # on what it is mixed with
+    import tempfile, shutil, yaml
+    from pgradd.GroupAdd.Scheme import GroupAdditivityScheme
+    tmp = tempfile.mkdtemp(prefix='c04_syn_')
+    try:
+        d = yaml.safe_load(open(os.path.join(source.DATA_DIR, 'BensonGA', 'scheme.yaml')))
+        d['patterns'].append({'center_name': 'Cq', 'periph_name': 'C', 'connectivity': 'fragment a{ C labeled c1 {connected to =4 C} }'})
+        d['patterns'].append({'center_name': 'N', 'periph_name': 'N', 'connectivity': 'fragment a{ N labeled c1 }'})
+        path = os.path.join(tmp, 'ambiguous.yaml')
+        yaml.safe_dump(d, open(path, 'w'))
+        with real.quiet():
+            sch = GroupAdditivityScheme.Load(path)
+
+        def dec(smi):
+            try:
+                with real.quiet():
+                    return ('ok', _norm({str(k_): v_ for k_, v_ in sch.GetDescriptors(smi).items()}))
+            except Exception as e_:    # noqa
+                return ('fail', type(e_).__name__)
+        comps = ['CC(C)(C)C', 'CC', 'O', 'N', 'CN', 'CCO', 'CC(C)(C)CC']
+        alone = {c_: dec(c_) for c_ in comps}
+        for a in comps:
+            for b in comps:
+                n += 1
+                got = dec(a + '.' + b)
+                if alone[a][0] == 'ok' and alone[b][0] == 'ok':
+                    want = dict(alone[a][1])
+                    for k_, v_ in alone[b][1].items():
+                        want[k_] = want.get(k_, 0) + v_
+                    ok = got[0] == 'ok' and got[1] == _norm(want)
+                    distinct += 1
+                else:
+                    want = ('fail', 'a component cannot be decomposed')
+                    ok = got[0] == 'fail'
+                if not ok and _room(viol, 15):
+                    viol.append({'id': 'ambiguous-scheme-%s.%s' % (a, b), 'input': {'scheme': 'BensonGA + a quaternary-carbon pattern + a nitrogen pattern', 'A': a, 'B': b, 'alone': [alone[a], alone[b]]},
+                                 'observed': got, 'expected': want})
+    finally:
+        shutil.rmtree(tmp, ignore_errors=True)
     return {'name': 'mixture-additivity', 'evaluations': n, 'distinct_nontrivial': distinct, 'violations': viol, 'samples': samples,
             'bound': 'ordered pairs (incl. self-pairs) of generated molecules x %d schemes' % len(libs),
             'rule': 'a case is (scheme, A, B); non-trivial = both components decomposable'}
